@@ -6188,8 +6188,9 @@ impl GraphEngine {
                         edge.to
                     };
                     if let Ok(neighbor) = self.get_node(neighbor_id) {
-                        // Avoid duplicates for undirected edges
-                        if !results.iter().any(|(n, _)| n.id == neighbor.id) {
+                        // Avoid duplicates for undirected edges (listed in both lists);
+                        // other edges from the same neighbor are distinct matches
+                        if !results.iter().any(|(_, e)| e.id == edge.id) {
                             results.push((neighbor, edge));
                         }
                     }
